@@ -73,6 +73,7 @@ type World struct {
 	Soft     bool
 	unis     map[string]*Universe
 	Stats    map[string]int
+	shared   map[string]*Universe // sweep mode (-all-props): universes loaded once per process, handed to each property's World on demand
 }
 
 var errVariantDoesNotCompile = fmt.Errorf("variant does not type-check")
@@ -102,9 +103,18 @@ func (w *World) uni(name string) *Universe {
 	default:
 		machineryFailure("unknown universe %q", name)
 	}
-	u := loadUniverseOverlay(name, w.Repo, dir, w.Thorough && w.Overlay == nil, w.Overlay, w.Soft)
+	var u *Universe
+	if w.shared != nil {
+		u = w.shared[name]
+	}
+	if u == nil {
+		u = loadUniverseOverlay(name, w.Repo, dir, w.Thorough && w.Overlay == nil, w.Overlay, w.Soft)
+	}
 	if u == nil {
 		panic(errVariantDoesNotCompile)
+	}
+	if w.shared != nil {
+		w.shared[name] = u
 	}
 	w.unis[name] = u
 	w.Stats["packages_"+name] = len(u.Pkgs)
